@@ -182,7 +182,9 @@ def main():
     for i, c in enumerate(cases):
         m = mres[i] if mres is not None and not isinstance(mres[i], str) else None
         c["use"] = bool(c["ep"] in USE_MODELLED or c["corr"].startswith("valid") or m is None or m[2] == 0)
+    t_model = lib.time.time() - ck.t0
     ires = lib.run_impl("c20_impl.py", {"cases": cases, "jobs": 15}, timeout=3000)["results"]
+    ck.hist["seconds"] = {"proof+model": round(t_model, 1), "implementation": round(lib.time.time() - ck.t0 - t_model, 1)}
 
     bad_corr = {}
     all_bad = []
@@ -206,7 +208,16 @@ def main():
         replay["model"] = {"construct": mc, "use": mu, "wellformed": wf, "term": terms[i]}
         sig_tail = f"{c['ep']}.{short_field(c['field'])}.{c['corr']}" if c["field"] != "-" else f"{c['ep']}.{c['corr']}"
         # stable signature of a genuine defect: entry point + kind of corruption (position / field stripped)
-        kind = c["corr"].split(".")[-1] if c["ep"] != "error_residual" else "constraint_shape_1"
+        kind = c["corr"].split(".")[-1]
+        if c["ep"] == "error_residual":
+            kind = "constraint_shape_1" if c["corr"] in ("0", "1") else "constraint_shape"
+        elif c["ep"] in ("lift_residual", "lift_ode"):
+            kind = "lift_by_not_int" if isinstance(c["args"]["lift_by"], str) else \
+                ("lift_by_negative" if c["args"]["lift_by"] < 0 else "lift_by_too_large")
+        elif c["ep"] == "matfree_ens":
+            kind = "too_few_ensembles"
+        elif c["ep"] == "warn":
+            kind = f"{c['args']['strategy']}.{c['args']['routine']}"
         sig_defect = f"C20.{c['ep']}.{kind}"
 
         # ---- (3) the property, directly on the implementation
@@ -215,17 +226,18 @@ def main():
             if unsuitable and c["args"]["routine"] != "save_at_nowarn":
                 n_warn += 1
                 if not (r["warned"] and r["warn_try"]):
-                    ck.report(f"C20.{sig_tail}", f"unsuitable pairing {c['args']} ({c['fact']}) emitted "
+                    ck.report(sig_defect, f"unsuitable pairing {c['args']} ({c['fact']}) emitted "
                               f"{'a warning without a remedy' if r['warned'] else 'no warning'}", replay)
                     continue
             if not unsuitable and r["warned"]:
-                ck.report(f"C20.{sig_tail}", f"suitable pairing {c['args']} ({c['fact']}) emitted a warning: {r.get('wmsg')}", replay)
+                ck.report(sig_defect, f"suitable pairing {c['args']} ({c['fact']}) emitted a warning: {r.get('wmsg')}", replay)
                 continue
         elif wf == 0:
             n_malformed += 1
             silent = r["construct"] == "accept" and r["use"] in ("numbers", "nonfinite") or \
                 (r["construct"] == "accept" and r["use"] is None and c["ep"] in ("verify",) and False)
             if silent:
+                all_bad.append(("DEFECT", sig_defect, c["fact"], c["base"], c["field"], c["corr"], m, r["construct"], r["use"]))
                 ck.report(sig_defect,
                           f"malformed input accepted silently and numbers came back: {c['ep']}({c['fact']}) "
                           f"field {c['field']} corruption {c['corr']} of base '{c['base']}' (args {json.dumps(c['args'])[:300]})",
